@@ -171,7 +171,16 @@ def main() -> int:
     import glob
     import shutil
     for d in glob.glob(f'/dev/shm/verif-{prop}-*'):
-        shutil.rmtree(d, ignore_errors=True)
+        # only folders of processes that are gone (this run's workers): another run of the same check may be alive
+        tail = d.rsplit('-', 1)[-1]
+        if not tail.isdigit():
+            continue
+        try:
+            os.kill(int(tail), 0)
+        except ProcessLookupError:
+            shutil.rmtree(d, ignore_errors=True)
+        except OSError:
+            pass
     nviol = sum(len(v) for v in groups.values())
     path = core.write_evidence(ctx, level, nviol, len(known_hit))
     acc = ctx.acc
